@@ -1,6 +1,6 @@
 (* C06 — credentials are never forwarded to a different origin on redirect.  Statements only. *)
 From Coq Require Import String List NArith ZArith QArith Bool.
-From V Require Import lib.PyStr model.Retry model.Redirect gen.Gen_Retry proofs.Redirect_proofs corr.Run_C04.
+From V Require Import lib.PyStr model.Retry model.Redirect gen.Gen_Retry gen.Gen_Pm proofs.Redirect_proofs corr.Run_C04.
 Import ListNotations.
 Local Open Scope Z_scope.
 
@@ -10,6 +10,12 @@ Theorem default_rm_covers :
   mem_str h (r_remove_headers lib_default) = true.
 Proof. intros h [<-|[<-|[<-|[]]]]; vm_compute; reflexivity. Qed.
 Print Assumptions default_rm_covers.
+
+(* is_same_host parses a network-path reference ("//host/path", what a scheme-relative Location stays when the current URL was
+   written without a scheme) instead of taking it for a path on the current host - the model compares origins of resolved URLs *)
+Theorem same_host_source_fact : Gen_Pm.same_host_reads_network_path = Some true.
+Proof. reflexivity. Qed.
+Print Assumptions same_host_source_fact.
 
 (* once a redirect leaves the current origin, no request of the rest of the chain carries a header
    of the removal set — whatever its casing, for every chain, policy and header list *)
